@@ -615,7 +615,7 @@ func rawArgs(st *Step) []json.RawMessage { return decodeArr(st.Op.A) }
 func Applicable(c *Case, d *vals.DT) bool {
 	for i := range c.Steps {
 		switch c.Steps[i].Op.K {
-		case "UnsafeUn", "UnsafeBinK", "UnsafeBinT":
+		case "UnsafeUn", "UnsafeBinK", "UnsafeBinT", "FMA":
 			if !d.Numeric() {
 				return false
 			}
